@@ -21,7 +21,10 @@
 
    sf_routes <mask> <bytes> <route>,<route>,...      the read routes of one sub-field over packed bytes (sf_route)
         route = arr | max | min | sum | cnt | uniq | bool | i<bits> | u<bits> | at<i> | c<op>_<c>   (op 0 < 1 <= 2 >= 3 > 4 == 5 !=)
-     -> <values>;<values>...    values = - (empty) | v,v,v | none (numpy refuses: reduction of nothing, index outside) *)
+     -> <values>;<values>...    values = - (empty) | v,v,v | none (numpy refuses: reduction of nothing, index outside)
+
+   sf_lookup <fmt> <field>,<field>,... <name>,<name>,...     what rec[name] addresses on a record whose array has these fields (resolve)
+     -> <t>;<t>...   t = sub:<composed>:<mask> | field:<name> | none *)
 open Model
 
 let rec pos_of_int n = if n = 1 then XH else if n land 1 = 0 then XO (pos_of_int (n lsr 1)) else XI (pos_of_int (n lsr 1))
@@ -136,6 +139,14 @@ let dispatch cmd a =
       String.concat "#" (List.init n (fun i -> tok_of_cols (obj_read w (nat_of_int i)))) in
     String.concat ";" (List.map (fun (w, e) ->
         (match e with None -> "ok" | Some e -> "err:" ^ err_name e) ^ "@" ^ objs w) (wrun ([], []) ops))
+  | "sf_lookup" ->
+    let fmt = z_of_string a.(0) in
+    let fields = List.map coq_string_of (split_on ',' a.(1)) in
+    String.concat ";" (List.map (fun n ->
+        match resolve fmt fields (coq_string_of n) with
+        | TSub (c, m) -> "sub:" ^ string_of_coq c ^ ":" ^ string_of_z m
+        | TField f -> "field:" ^ string_of_coq f
+        | TNone -> "none") (split_on ',' a.(2)))
   | "sf_cols" -> String.concat "," (List.map string_of_coq (fmt_cols (z_of_string a.(0))))
   | _ -> "unknown-command " ^ cmd
 
